@@ -449,7 +449,7 @@ func (d cffDict) setFontMatrix(op dictOp, fm matrix.Matrix, isCIDKeyed bool) {
 		} else {
 			def = defaultFontMatrix[i]
 		}
-		if math.Abs(xi-def) > 1e-5 {
+		if xi != def {
 			needed = true
 			break
 		}
